@@ -307,6 +307,9 @@ class Conn:
             import falcon
 
             raise falcon.WebSocketDisconnected()
+        if kind == "timeout":
+            # nothing arrived within message_timeout: what `async with timeout(message_timeout)` around ws_recv raises
+            raise asyncio.TimeoutError()
         self.rec.current[self.c] = abstract or {}
         self.rec.emit(a="Recv", c=self.c, m=(abstract or {}).get("m", "RAW"))
         return payload
@@ -347,6 +350,7 @@ async def run_connections(st, uni, nconns, schedule, sid_map, rate_limiter=None,
        ("open", c)                       start the handler of connection c
        ("msg", c, abstract_message)      put the frame into c's inbox; abstract_message = dict(m=..., ...)
        ("disc", c)                       the peer goes away
+       ("timeout", c)                    the peer stays silent until the relay's message timeout fires (the relay closes)
        ("stall", c) / ("unstall", c)     the peer stops / resumes reading: ws_send blocks meanwhile
        ("idle",)                         run until nothing can make progress without the environment
        ("yield", k)                      let the loop run k iterations
@@ -481,6 +485,9 @@ async def run_connections(st, uni, nconns, schedule, sid_map, rate_limiter=None,
                 # dynamic messages: fn(recorder) -> [(c, frame text, abstract message)], built from what was observed so far
                 for c, text, abstract in step[1](rec):
                     conns[c].inbox.put_nowait(("msg", text, abstract))
+            elif kind == "timeout":
+                # the peer stays silent until the relay's message timeout fires
+                conns[step[1]].inbox.put_nowait(("timeout", None, None))
             elif kind == "do":
                 # something the operator does while connections are open (an async function of the recorder), e.g. a role assignment
                 await step[1](rec)
